@@ -385,13 +385,14 @@ def replay_playback(h, prop, res):
 	rws = os.path.join(WORK, f"replay-ws-{os.getpid()}-{h.name}")
 	try:
 		sh(["rsync", "-a", "--delete", WS + "/", rws + "/"])
-		if h.crate == "verif_server":
-			# the mounted files' own #[cfg(test)] modules need dev-dependencies the harness crate does not have
-			for root, _d, files in os.walk(os.path.join(rws, "versatiles", "src", "tools", "server")):
-				for f in files:
-					if f.endswith(".rs"):
-						fp = os.path.join(root, f)
-						_write(fp, re.sub(r"#\[cfg\(test\)\]\s*\nmod tests", "#[cfg(any())]\nmod tests", _read(fp)))
+		mounted = {"verif_server": [os.path.join("versatiles", "src", "tools", "server")],
+			"verif_conv": [os.path.join("versatiles_container", "src", "container", "converter.rs"), os.path.join("versatiles_container", "src", "container", "tile_converter.rs")]}
+		for rel in mounted.get(h.crate, []):
+			# the mounted files' own #[cfg(test)] modules need items / dev-dependencies the harness crate does not have
+			top = os.path.join(rws, rel)
+			paths = [top] if os.path.isfile(top) else [os.path.join(r, f) for r, _d, fs in os.walk(top) for f in fs if f.endswith(".rs")]
+			for fp in paths:
+				_write(fp, re.sub(r"#\[cfg\(test\)\]\s*\nmod tests", "#[cfg(any())]\nmod tests", _read(fp)))
 		modfile = harness_source_file(h, rws)
 		if not modfile:
 			return None, rpath, "harness source file not found for playback"
